@@ -398,11 +398,15 @@ class Executor(object):
             o = st.obj(v)
             if o.kind == "stages" and attr == "shape":
                 return [(st, ("state_shape", len(o.items)))]
+            if o.kind == "dictview":
+                return [(st, BoundMethod(v, attr))]
             if o.kind == "object":
                 if attr in o.fields:
                     return [(st, o.fields[attr])]
                 if attr == "__class__":
                     return [(st, ModuleRef("class:" + o.cls))]
+                if attr == "__dict__":
+                    return [(st, st.new_obj("dictview", "dictview", fields={"target": v}))]
                 fi = self.src.find_method(o.cls, attr)
                 if fi is None and attr.startswith("_") and "__" in attr[1:]:
                     un = attr[attr.index("__", 1):]
@@ -416,8 +420,13 @@ class Executor(object):
                 if "%s.%s" % (o.cls, attr) in self.call_hooks:
                     return [(st, BoundMethod(v, attr))]
                 ci, expr = self.src.find_class_attr(o.cls, attr)
+                if expr is None and attr.startswith("_") and "__" in attr[1:]:
+                    ci, expr = self.src.find_class_attr(o.cls, attr[attr.index("__", 1):])
                 if expr is not None:
                     return self.eval(expr, st, Ctx(None, None, ci, tag=ctx.tag))
+                ga = self.src.find_method(o.cls, "__getattr__")
+                if ga is not None and not ctx.spec:
+                    return self.call_function(ga, [v, attr], {}, st, ctx, node)
                 hook = self.call_hooks.get("getattr:" + o.cls)
                 if hook is not None:
                     return [(st, hook(self, st, ctx, v, attr))]
@@ -426,6 +435,8 @@ class Executor(object):
                 o.fields[attr] = val
                 return [(st, val)]
             return [(st, BoundMethod(v, attr))]
+        if isinstance(v, slice) and attr in ("start", "stop", "step"):
+            return [(st, getattr(v, attr))]
         if isinstance(v, TabVal) and attr == "shape":
             return [(st, v.shape)]
         if isinstance(v, ConcVec) and attr == "shape":
@@ -594,7 +605,16 @@ class Executor(object):
                 if isinstance(idx, Raised):
                     out.append((s2, idx))
                     continue
-                out.append((s2, self.subscript(v, idx, s2, ctx, node)))
+                try:
+                    out.append((s2, self.subscript(v, idx, s2, ctx, node)))
+                except B.OutOfBounds as oob:
+                    sr = s2.fork()
+                    sr.assume(z3.Not(oob.cond))
+                    if self.feasible(sr):
+                        out.append((sr, Raised(ExcVal("IndexError", tag="numpy-index"))))
+                    s2.assume(oob.cond)
+                    if self.feasible(s2):
+                        out.append((s2, self.subscript(v, idx, s2, ctx, node)))
         return out
 
     def eval_index(self, sl, st, ctx):
@@ -977,6 +997,8 @@ class Executor(object):
         st.env = env
         sub = Ctx(fi, contract, fi.cls, ctx.lifted if lifted is None else lifted, ctx.spec, ctx.depth + 1,
                   ctx.entry, ctx.tag if contract is None else fi.qualname)
+        if fi.node.name == "__setattr__" or getattr(ctx, "in_setattr", False):
+            sub.in_setattr = True
         if contract is not None:
             sub.entry = st.fork()
         out = []
@@ -1293,6 +1315,12 @@ class Executor(object):
                 r = hook(self, st, ctx, o, attr, v)
                 if r is not None:
                     return r
+            sa = self.src.find_method(obj.cls, "__setattr__") if obj.kind == "object" else None
+            if sa is not None and not getattr(ctx, "in_setattr", False):
+                sub = Ctx(ctx.finfo, ctx.contract, ctx.cls, ctx.lifted, ctx.spec, ctx.depth, ctx.entry, ctx.tag)
+                sub.in_setattr = True
+                r = self.call_function(sa, [o, attr, v], {}, st, sub, node)
+                return [(s_, ("raise", x.exc) if isinstance(x, Raised) else None) for s_, x in r]
             obj.fields[attr] = v
             return [(st, None)]
         if isinstance(o, (Opaque, UFunc)):
@@ -1635,6 +1663,8 @@ class Executor(object):
             return st.new_obj("list", "list", items=[self.make_param("%s.%d" % (name, i), s, st) for i, s in enumerate(sort[1:])])
         if isinstance(sort, tuple) and sort[0] == "const":
             return sort[1]
+        if isinstance(sort, tuple) and sort[0] == "slice":
+            return slice(*[self.make_param("%s.%s" % (name, k), s_, st) for k, s_ in zip(("start", "stop", "step"), sort[1:])])
         if sort == "Int":
             return z3.Int(name)
         if sort == "Real":
